@@ -52,6 +52,16 @@ Definition set_channel (b : dbuf) (ch v : N) : dbuf :=
 (* DmxBuffer::Set(data, length), data != NULL *)
 Definition buf_set (data : list N) : dbuf := Some (take DMX_UNIVERSE_SIZE data).
 
+Fixpoint max_zip (a b : list N) : list N :=
+  match a, b with x :: a', y :: b' => N.max x y :: max_zip a' b' | _, _ => [] end.
+(* DmxBuffer::HTPMerge(other) *)
+Definition htp_merge (b other : dbuf) : dbuf :=
+  let l := match b with None => [] | Some l => l end in
+  let o := match other with None => [] | Some o => take DMX_UNIVERSE_SIZE o end in
+  let m := N.min (len l) (len o) in
+  Some (max_zip l o ++ (if len l <? len o then drop m o else drop m l)).
+
+
 (* DmxBuffer::Reset(): m_length = 0 when a block exists *)
 Definition buf_reset (b : dbuf) : dbuf := match b with None => None | Some _ => Some [] end.
 
